@@ -128,7 +128,14 @@ func zzC22Import(dstRouters []uint64, p func(dst uint64) *scom.MakeTxParam) {
 	db := zzNewCacheDB()
 	src, dst := zzChainIDs("src", "dst")
 	zzsym.Assume(src != dst)
-	zzRegister(db, src, utils.ETH_ROUTER)
+	// source router: a proof-verifying router, or one of the two vote-style routers, whose handler answers
+	// (nil, nil) until the quorum of votes is reached and the verified message with the deciding vote
+	srcRouter := []uint64{utils.ETH_ROUTER, utils.VOTE_ROUTER, utils.RIPPLE_ROUTER}[zzsym.Choose("srcRouter", 3)]
+	zzRegister(db, src, srcRouter)
+	zzStub.pending = false
+	if srcRouter != utils.ETH_ROUTER {
+		zzStub.pending = zzsym.Bool("votePending")
+	}
 	dstKnown := zzsym.Bool("dstRegistered")
 	if dstKnown {
 		zzRegister(db, dst, dstRouters[zzsym.Choose("dstRouter", len(dstRouters))])
@@ -142,6 +149,12 @@ func zzC22Import(dstRouters []uint64, p func(dst uint64) *scom.MakeTxParam) {
 	ns := zzService(db, tx, height, zzInvokeInput(scom.IMPORT_OUTER_TRANSFER_NAME, zzEntranceInput(src, height)))
 	ret, err := ns.Invoke()
 	after := zzWriteSet(db)
+	if err == nil && !zzStub.reject && zzStub.pending {
+		// a vote below quorum: recorded by the handler (stubbed here), not an accepted import yet
+		zzsym.Assert(zzSameWriteSet(before, after) && len(ns.GetCrossHashes()) == 0, "a vote that does not reach quorum stores no request and commits no leaf")
+		zzsym.Cover("vote-pending")
+		return
+	}
 	if err != nil {
 		zzsym.Assert(zzStub.reject || !dstKnown, "an import with accepted proof between registered chains is accepted")
 		zzsym.Assert(zzSameWriteSet(before, after), "a failed import stores no request (store unchanged)")
@@ -155,6 +168,9 @@ func zzC22Import(dstRouters []uint64, p func(dst uint64) *scom.MakeTxParam) {
 	zzCheckCommitted(zzNewEntries(before, after), ns.GetCrossHashes(), tx.Hash(), src, zzStub.param)
 	zzsym.Assert(len(zzNewEntries(after, before)) == 0, "an accepted import overwrites or deletes nothing")
 	zzsym.Cover("accepted")
+	if srcRouter != utils.ETH_ROUTER {
+		zzsym.Cover("accepted-by-vote")
+	}
 }
 
 // ZZ_C22_ImportSmall: every combination of field lengths 0..L.
